@@ -73,7 +73,7 @@ PROPS["C09"] = {
     "level_text": ("generated layouts (1-20 segments of 1-9 messages with varying byte sizes and timestamps) and every combination of the bytes/messages/age "
                    "limits with values placed exactly at, one below and one above the layout's suffix sums / segment last-timestamps (plus tiny and huge), 1-6 "
                    "cleans with further appends in between; the expected cut k* = max(k_age,k_msgs,k_bytes) capped at n-1 is computed on the model and the "
-                   "survivors must be exactly segments [k*,n), byte-identical, readable from every start offset. Unit C09exh: a fixed layout of four appends, then EVERY sequence of up to 3 (thorough: 4) letters of a 19-letter alphabet (appends incl. one whose timestamps go back at an epoch bump, reopen, HW move, 13 cleans: byte / message / age limits exactly at, one below and one above a cumulative sum of the layout, an age clean with an append while it runs, all three limits together, the tiny and the all-expired extremes), for 150- and 64-byte segments, through the same executor and oracle"),
+                   "survivors must be exactly segments [k*,n), byte-identical, readable from every start offset. Unit C09exh: a fixed layout of four appends, then EVERY sequence of up to 3 (thorough: 4) letters of a 20-letter alphabet (appends incl. one whose timestamps go back at an epoch bump, reopen, HW move, 13 cleans: byte / message / age limits exactly at, one below and one above a cumulative sum of the layout, an age clean with an append while it runs, all three limits together, the tiny and the all-expired extremes), for 150- and 64-byte segments, through the same executor and oracle"),
     "level_note": "timestamps non-decreasing except at an epoch bump (a new leader whose clock is behind); computeTTL is replaced by a fixed cut-off through the package variable meant for it; unit C09b (-race, both tiers): message-count retention concurrent with an appending goroutine: what is left is a gap-free suffix of what was appended, the newest message included",
     "rule": ("rapid draws max segment bytes from {1,64,150,300,1024}, 1-3 rounds of (0-18 appends of 1-3 messages, optional reopen, optional HW move, 1-2 Clean() calls "
              "whose limits are selectors resolved against the current model layout). Non-trivial = a clean on >=3 segments with >=1 limit active whose expected "
@@ -82,7 +82,7 @@ PROPS["C09"] = {
     "units": [
         {"name": "C09", "pkg": "server/commitlog", "test": "TestVerifC09",
          "quick": {"shards": 16, "checks": 1500}, "thorough": {"shards": 16, "checks": 15000, "timeout": 3000}},
-        # bounded-exhaustive: a fixed 4-append layout, then every sequence of <= LEN letters of a 19-letter alphabet, for 150- and 64-byte segments
+        # bounded-exhaustive: a fixed 4-append layout, then every sequence of <= LEN letters of a 20-letter alphabet, for 150- and 64-byte segments
         {"name": "C09exh", "pkg": "server/commitlog", "test": "TestVerifC09Exh", "kind": "exhaustive",
          "quick": {"shards": 16, "params": {"LEN": 3}}, "thorough": {"shards": 16, "params": {"LEN": 4}, "timeout": 3000}},
         {"name": "C09b", "pkg": "server/commitlog", "test": "TestVerifC09b", "common": {"race": True},
